@@ -107,6 +107,13 @@ type Store struct {
 	RejectObject func(obj client.Object) bool
 
 	indexers []indexer
+
+	// PreserveStatus makes writes to the main resource leave .status as
+	// stored (the behaviour of kinds with a status subresource, which is what
+	// CRDs and every Crossplane type have); only Status() writes change it.
+	// Off by default: most harnesses never look at the status of what the
+	// code under test writes through the main resource.
+	PreserveStatus bool
 }
 
 type indexer struct {
@@ -607,6 +614,7 @@ func (s *Store) Update(_ context.Context, obj client.Object, opts ...client.Upda
 	}
 	doc := toDoc(obj)
 	serverOwned(cur, doc)
+	s.keepStatus(cur, doc)
 	// an update that changes nothing is a no-op: the resourceVersion stays
 	if !reflect.DeepEqual(doc, cur) {
 		s.replace(i, doc)
@@ -630,6 +638,19 @@ const createdAt = "2024-01-01T00:00:00Z"
 
 // serverOwned copies the metadata fields only the API server may change from
 // the current document into next.
+// keepStatus carries the stored status over into next when the store models
+// a status subresource.
+func (s *Store) keepStatus(cur, next map[string]any) {
+	if !s.PreserveStatus {
+		return
+	}
+	if st, ok := cur["status"]; ok {
+		next["status"] = st
+	} else {
+		delete(next, "status")
+	}
+}
+
 func serverOwned(cur, next map[string]any) {
 	cm, nm := metaOf(cur), metaOf(next)
 	for _, k := range []string{"uid", "creationTimestamp", "deletionTimestamp", "generation", "resourceVersion", "name", "namespace"} {
@@ -881,6 +902,7 @@ func (s *Store) Patch(_ context.Context, obj client.Object, p client.Patch, opts
 		applyMerge(next, patch)
 		applyMetadata(next, patch)
 		serverOwned(s.entries[i].doc, next)
+		s.keepStatus(s.entries[i].doc, next)
 		// the API server refuses an object with two controller references
 		if controllerCount(next) > 1 {
 			c.Err = true
@@ -932,6 +954,7 @@ func (s *Store) Patch(_ context.Context, obj client.Object, p client.Patch, opts
 		}
 		mergePatch(next, patch)
 		serverOwned(s.entries[i].doc, next)
+		s.keepStatus(s.entries[i].doc, next)
 		if c.DryRun {
 			s.log(c)
 			return nil
